@@ -784,10 +784,74 @@ def latin1_ok(tree):
         return False
 
 
+def _cid(module, name):
+    for cd in T():
+        if cd["module"] == module and cd["name"] == name:
+            return cd["id"]
+    return None
+
+
+def _blank(cid):
+    cd = T()[cid]
+    return {"c": cid, "a": [None] * len(cd["attrs"]), "s": [[] for _ in cd["children"]], "t": None, "ee": [], "ea": []}
+
+
+def regression_cases(rng):
+    """Minimal inputs of the defects already repaired in /repo (they must stay repaired) and of the recorded
+    known findings, addressed by class NAME so that they survive a renumbering of the table."""
+    xsi_t, xsi_n = "{%s}type" % XSI, "{%s}nil" % XSI
+    # fixed 014c8709: KeyInfo/EncryptedKey registered under a namespace that does not exist
+    for mod, name in (("saml2.xmldsig", "KeyInfo"), ("saml2.xmldsig", "KeyInfoType_"), ("saml2.xmlenc", "OriginatorKeyInfo"),
+                      ("saml2.xmlenc", "RecipientKeyInfo")):
+        ki, ek = _cid(mod, name), _cid("saml2.xmlenc", "EncryptedKey")
+        if ki is None or ek is None:
+            continue
+        inst = _blank(ki)
+        for j, ch in enumerate(T()[ki]["children"]):
+            if ch[3] == ek:
+                k = _blank(ek)
+                k["a"][0] = "ek1"
+                inst["s"][j] = [k]
+        yield mk_rt(inst, "regress-keyinfo")
+        tree = {"q": class_tag(T()[ki]), "a": [], "t": None,
+                "k": [{"q": ["http://www.w3.org/2000/09/xmlenc#", "EncryptedKey"], "a": [], "t": None, "k": []},
+                      {"q": ["http://www.w3.org/2001/04/xmlenc#", "EncryptedKey"], "a": [["Id", "ek1"]], "t": None, "k": []}]}
+        yield mk_parse(ki, tree, rng, style={})
+    # fixed b53283ae: wsdl definitions could not be serialised until `import` was assigned
+    for name in ("Definitions", "TDefinitions_"):
+        c = _cid("saml2.schema.wsdl", name)
+        if c is not None:
+            yield mk_rt(_blank(c), "regress-wsdl-import")
+    # known findings (one minimal witness each)
+    c = _cid("saml2.saml", "NameID")
+    if c is not None:
+        yield mk_rt(dict(_blank(c), t="a\rb"), "cr")
+    c = _cid("saml2.saml", "Attribute")
+    if c is not None:
+        yield mk_rt(_blank(c), "nf")
+    c = _cid("saml2.extension.shibmd", "Scope")
+    if c is not None:
+        yield mk_rt(dict(_blank(c), t="example.org"), "ctor-default")
+    c = _cid("saml2.saml", "AttributeValue")
+    if c is not None:
+        typed = [[xsi_t, "xs:string"], ["xmlns:xs", XS]]
+        e = {"ns": None, "tag": "e", "a": [], "k": [], "t": None}
+        yield mk_rt(dict(_blank(c), t=" x", ee=[e], ea=typed), "av-strip")
+        yield mk_rt(dict(_blank(c), t="x", ea=typed + [["foo", "b"]]), "av-reorder")
+        yield mk_rt(dict(_blank(c), ea=typed), "av-typeonly")
+        # and the states that do survive
+        yield mk_rt(dict(_blank(c), ea=[[xsi_n, "true"]]), "av-nil")
+        yield mk_rt(dict(_blank(c), t="x", ea=typed), "av-text")
+        yield mk_rt(dict(_blank(c), t="x", ea=[["foo", "b"]] + typed), "av-attr-before-type")
+        yield mk_rt(dict(_blank(c), ee=[e]), "av-ext")
+
+
 def gen_cases(rng, tier):
     if "cls" not in _S:
         setup()
     tbl = T()
+    for c in regression_cases(rng):
+        yield c
     per_rt = 10 if tier == "quick" else 40
     per_parse = 5 if tier == "quick" else 20
     avs = [cd["id"] for cd in tbl if cd["kind"] == "attrValue"]
@@ -951,7 +1015,12 @@ def run_impl(case):
             o = reflect(p, cid)
         except Unusable as e:
             return {"r": "raised", "exc": "Unusable: %s" % e}
-        return {"r": "obj", "o": o, "same": s2 == s}
+        # the order of the root's children in the written document, read with the plain parser
+        # (independent of pysaml2's object model)
+        from xml.etree import ElementTree
+
+        order = [list(classtable.split_clark(ch.tag)) for ch in ElementTree.fromstring(s.encode("utf-8"))]
+        return {"r": "obj", "o": o, "same": s2 == s, "order": order}
     if case["op"] == "parse":
         doc = render(case)
         cid = case["cls"]
@@ -1080,11 +1149,13 @@ def shrink(case):
         inst = case["inst"]
 
         def variants(i):
+            if T()[i["c"]]["kind"] == "attrValue":
+                return  # an AttributeValue state is kept whole: its parts depend on each other
             if i["ee"]:
                 yield dict(i, ee=[])
-            if i["ea"] and T()[i["c"]]["kind"] != "attrValue":
+            if i["ea"]:
                 yield dict(i, ea=[])
-            if i["t"] is not None and T()[i["c"]]["kind"] != "attrValue":
+            if i["t"] is not None:
                 yield dict(i, t=None)
             for j, s in enumerate(i["s"]):
                 if s:
